@@ -37,8 +37,8 @@ CONFIG = {
                             'c13.get_reversed_graph': 20000,
                             'c13.get_subgraph': 50000, 'c13.clone': 20000},
                   'thorough': {'c13.get_reachable_set_from': 500000}},
-    'must_sig': ['site:get_subgraph:pyModelChecking.CTL.model_checking:_checkEU',
-                 'site:get_reachable_set_from:pyModelChecking.kripke:get_fair_states',
+    'must_sig': ['site:get_subgraph:pyModelChecking.CTL.model_checking:*',
+                 'site:get_reachable_set_from:pyModelChecking.kripke:*',
                  'subgraph:dropped_edges', 'subgraph:foreign_nodes',
                  'reach:proper'],
     'rule': ('cases = (digraph, node subset X, method); enumerated: every '
